@@ -36,6 +36,19 @@ def showC (c : Option Bytes) : String :=
   | none => "absent"
   | some b => s!"{b.length}B:{hex (b.take 12)}"
 
+def showOp : Op → String
+  | .openTrunc fd p => s!"open({p},O_TRUNC)=fd{fd}"
+  | .createExcl fd p => s!"open({p},O_EXCL)=fd{fd}"
+  | .write fd bs => s!"write(fd{fd},{bs.length}B)"
+  | .close fd => s!"close(fd{fd})"
+  | .rename a b => s!"rename({a},{b})"
+  | .remove p => s!"remove({p})"
+  | .nop => "no-effect-call"
+
+def showOpt : Option Op → String
+  | none => "none"
+  | some o => showOp o
+
 def handleC48 (j : Json) : Except String Verdict := do
   let i ← getObj j "in"
   let o ← getObj j "out"
@@ -66,7 +79,7 @@ def handleC48 (j : Json) : Except String Verdict := do
     match firstBadPrefix target old new fs0 ops 0 with
     | some k =>
       let fsk := run fs0 (ops.take k)
-      return .specfalse "unsafe-prefix" s!"{cmd}: killed after {k} of {ops.length} calls on the target ({repr (ops.take k |>.getLast?)}) the file holds {showC (content fsk target)}; old {showC old}, new {showC (some new)}"
+      return .specfalse "unsafe-prefix" s!"{cmd}: killed after {k} of {ops.length} calls on the target (last: {showOpt (ops.take k |>.getLast?)}) the file holds {showC (content fsk target)}; old {showC old}, new {showC (some new)}"
     | none => return .ok
   else
     let pend : List Op ← match o.getObjVal? "pending" with
@@ -79,7 +92,7 @@ def handleC48 (j : Json) : Except String Verdict := do
     let c1 := content (run fsEnd pend) target
     -- the property itself
     if final != old && final != some new then
-      return .specfalse "killed-partial" s!"{cmd}: killed entering call #{ops.length + 1} on the sandbox ({repr pend.head?}): the file holds {showC final}; old {showC old}, new {showC (some new)}"
+      return .specfalse "killed-partial" s!"{cmd}: killed entering call #{ops.length + 1} on the sandbox ({showOpt pend.head?}): the file holds {showC final}; old {showC old}, new {showC (some new)}"
     if final != c0 && final != c1 then
       return .mismatch "crash-content" s!"{cmd}: model predicts {showC c0} (or {showC c1}) after {ops.length} calls, file holds {showC final}"
     return .ok
